@@ -217,10 +217,12 @@ static void fresh(void)
 	ev_end();
 }
 
+static int last_new_id;
 static void op_new(char kind)
 {
 	call_t *c = mk("new");
 	int id = least_free(1);
+	last_new_id = id;
 	json_object *o = kind == 'o' ? json_object_new_object() : kind == 'a' ? json_object_new_array_ext(2) : json_object_new_int(id);
 	node[id] = o;
 	held[id] = 1;
@@ -257,14 +259,25 @@ static void after_give(int b, int ret)
 	if (ret == 0 && b)
 		held[b]--; /* ownership moved into the container */
 }
+static int force_const;
 static void op_oadd(int a, int b, int k, int isnew)
 {
 	call_t *c = mk(isnew ? "oaddnew" : "oadd");
 	c->a = a;
 	c->b = b;
 	c->k = k;
-	ARMED(c->ret = isnew ? json_object_object_add_ex(node[a], keystr(k), b ? node[b] : NULL, JSON_C_OBJECT_ADD_KEY_IS_NEW)
-	                     : json_object_object_add(node[a], keystr(k), b ? node[b] : NULL));
+	/* now and then the name is handed over as a constant (not copied, never freed by the library): a stable string */
+	static char consts[64][8];
+	unsigned copts = (isnew ? JSON_C_OBJECT_ADD_KEY_IS_NEW : 0);
+	const char *key = keystr(k);
+	if (k >= 0 && k < 64 && (force_const || vh_below(4) == 0))
+	{
+		snprintf(consts[k], sizeof consts[k], "k%d", k);
+		key = consts[k];
+		copts |= JSON_C_OBJECT_ADD_CONSTANT_KEY;
+	}
+	ARMED(c->ret = copts ? json_object_object_add_ex(node[a], key, b ? node[b] : NULL, copts)
+	                     : json_object_object_add(node[a], key, b ? node[b] : NULL));
 	after_give(b, c->ret);
 	emit(c);
 }
@@ -773,6 +786,22 @@ static int drive(int start, int nexec, int nops)
 				continue;
 			}
 			int a;
+			if (vh_below(60) == 0 && nlive() < 100 && (a = pick_held(1)))
+			{
+				/* a run of new members (the first one under a constant name): the table grows past its first size while
+				 * it holds names of both kinds */
+				for (int k = 20; k < 34; k++)
+				{
+					if (json_object_object_get_ex(node[a], keystr(k), NULL))
+						continue;
+					op_new('l');
+					int b = last_new_id;
+					force_const = k == 20;
+					op_oadd(a, b, k, 0);
+					force_const = 0;
+				}
+				continue;
+			}
 			/* now and then one of the next giving / copying call's first allocation requests fails */
 			if (r >= 42 && vh_below(14) == 0)
 				fault_k = (long)vh_below(r >= 90 && r < 93 ? 6 : 3);
@@ -792,7 +821,8 @@ static int drive(int start, int nexec, int nops)
 			{
 				if ((a = pick_held(1)))
 				{
-					int k = 1 + (int)vh_below(4);
+					/* mostly a handful of names (replacements), now and then many (the table grows) */
+					int k = 1 + (int)vh_below(vh_below(3) ? 4 : 16);
 					int present = json_object_object_get_ex(node[a], keystr(k), NULL);
 					int b = vh_below(20) == 0 ? a : pick_give(a); /* now and then the refused self-add */
 					op_oadd(a, b, k, !present && b != a && vh_below(3) == 0);
